@@ -576,3 +576,37 @@ func vMI_CycB() *MessageInfo {
 	vfinish(vmiCycB, vmdCycB, reflect.TypeOf(&x), si)
 	return vmiCycB
 }
+
+// ---- VBig: 66 required int32 fields (more than the 64 bits of the fast-path required mask) ----
+
+const vBigN = 66
+
+type VBig struct {
+	state         MessageState
+	sizeCache     SizeCache
+	unknownFields UnknownFields
+	F             [vBigN]*int32 // required int32 f1..f66 = 1..66
+}
+
+var vmiBig *MessageInfo
+
+func (*VBig) ProtoReflect() protoreflect.Message { return vRefl{mi: vMI_Big()} }
+func vMI_Big() *MessageInfo {
+	if vmiBig != nil {
+		return vmiBig
+	}
+	vmiBig = &MessageInfo{}
+	md := vmd("v.Big", protoreflect.Proto2)
+	var x VBig
+	si := vsi()
+	si.sizecacheOffset, si.sizecacheType = offsetOfU(unsafe.Offsetof(x.sizeCache)), reflect.TypeOf(x.sizeCache)
+	si.unknownOffset, si.unknownType = offsetOfU(unsafe.Offsetof(x.unknownFields)), reflect.TypeOf(x.unknownFields)
+	for i := 1; i <= vBigN; i++ {
+		f := vfd("f", protoreflect.FieldNumber(i), protoreflect.Int32Kind, req, false, true, nil)
+		f.parent = md
+		md.fields.list = append(md.fields.list, f)
+		si.fieldsByNumber[protoreflect.FieldNumber(i)] = vsf(reflect.TypeOf(x.F[0]), unsafe.Offsetof(x.F)+uintptr(i-1)*unsafe.Sizeof(x.F[0]))
+	}
+	vfinish(vmiBig, md, reflect.TypeOf(&x), si)
+	return vmiBig
+}
